@@ -125,6 +125,14 @@ def _cases(ctx):
         if kind == "bulk":
             size = ctx.rng.choice([1, 2, 3, 5, 10])
         yield roots, univ, table, kind, size, lenient, "random"
+    # the same agents behind SNMPv1 credentials (the walk loop and its successor check are shared)
+    for i in range(ctx.budget(250, 6000)):
+        roots, univ, table = random_table(ctx.rng)
+        kind, size, lenient = modes[i % 5]
+        yield roots, univ, table, kind, size, lenient, "random-v1"
+    for i, (roots, univ, table) in enumerate(ctx.rng.sample(tables, min(len(tables), ctx.budget(150, 3000)))):
+        kind, size, lenient = modes[i % 5]
+        yield [list(r) for r in roots], univ, table, kind, size, lenient, "exhaustive-U3-v1"
 
 
 def run(ctx):
@@ -133,12 +141,14 @@ def run(ctx):
     for roots, univ, table, kind, size, lenient, origin in _cases(ctx):
         spec = {"table": table}
         budget = len(univ) + 3
-        walk, agent = W.impl_walk(spec, roots, kind, size=size, lenient=lenient, budget=budget)
+        version = "v1" if origin.endswith("-v1") else "v2c"
+        walk, agent = W.impl_walk(spec, roots, kind, size=size, lenient=lenient, budget=budget, version=version)
         res.count(f"origin:{origin}")
+        res.count(f"proto:{version}")
         res.count(f"mode:{kind}{size if kind == 'bulk' else ''}/{'lenient' if lenient else 'strict'}")
         res.count(f"outcome:{walk['outcome'][-1] if walk['outcome'][0] == 'done' else walk['outcome'][1][0]}")
         res.count(f"requests:{min(len(agent.log), 9)}")
-        case = {"roots": roots, "universe": [list(u) for u in univ], "table": table, "kind": kind, "size": size, "lenient": lenient}
+        case = {"roots": roots, "universe": [list(u) for u in univ], "table": table, "kind": kind, "size": size, "lenient": lenient, "version": version}
         bad = oracle(univ, walk, agent, lenient, kind, size, len(roots))
         if bad:
             res.violate("e2e-faulty", case, "bounded run ending as the property prescribes", walk, bad, _signature(kind, lenient, bad, agent))
@@ -162,6 +172,26 @@ def run(ctx):
             res.violate("e2e-starved", case, "a bounded run", walk, f"bulk walk still requesting after {len(agent.log)} requests", {"kind": "walk-nontermination", "api": "bulkwalk", "agent": "starved"})
         reqs.append(W.model_request(spec, roots, "bulk", size=size, fuel=budget + 1))
         impls.append((case, walk, True))
+    # several walks in flight on ONE client (different roots, fetchers and error modes), advanced in a
+    # random order: each must end exactly as it ends when it runs alone
+    modes = [("getnext", 1, False), ("getnext", 1, True), ("bulk", 1, False), ("bulk", 2, False), ("bulk", 3, False)]
+    for i in range(ctx.budget(250, 6000)):
+        roots, univ, table = random_table(ctx.rng)
+        walks = []
+        for _ in range(ctx.rng.randint(2, 3)):
+            kind, size, lenient = ctx.rng.choice(modes)
+            rs = ctx.rng.sample(roots, ctx.rng.randint(1, len(roots)))
+            walks.append({"roots": sorted(rs), "kind": kind, "size": size, "lenient": lenient})
+        if i % 2 == 0:  # make sure both error modes meet
+            walks[0]["lenient"], walks[1]["lenient"] = True, False
+            walks[0]["kind"] = walks[1]["kind"] = "getnext"
+        schedule = [ctx.rng.randrange(len(walks)) for _ in range(6 * (len(univ) + 4))]
+        res.evaluations += 1
+        res.count("mode:interleaved")
+        bad = _interleaved(table, univ, walks, schedule)
+        if bad:
+            res.violate("e2e-interleaved", {"universe": [list(u) for u in univ], "table": table, "walks": walks, "schedule": schedule}, "each walk ends as it does alone", None, bad,
+                        {"kind": "walk-interference"})
     # table() / bulktable() over scripted agents: same loop, check that they end
     for i in range(ctx.budget(150, 3000)):
         roots, univ, table = random_table(ctx.rng)
@@ -184,6 +214,63 @@ def run(ctx):
         for case, _w, nontrivial in impls:
             res.case("e2e-faulty", case, nontrivial)
     return res
+
+
+def _table_of(table):
+    tbl = {}
+    for (oid, k), nxt in table:
+        tbl[(tuple(oid), k) if k is not None else tuple(oid)] = tuple(nxt) if nxt is not None else None
+    return tbl
+
+
+def _interleaved(table, univ, walks, schedule):
+    """the walks of `walks` on one client, advanced one item at a time in the order of `schedule`,
+    against their traces when run alone"""
+    alone = []
+    for w in walks:
+        tr, _ = W.impl_walk({"table": table}, w["roots"], w["kind"], size=w["size"], lenient=w["lenient"], budget=len(univ) + 3)
+        alone.append(tr)
+    agent = RA.Agent(table=_table_of(table), budget=len(walks) * (len(univ) + 3) + 4)
+    client = W.make_client(agent)
+    agens = []
+    for w in walks:
+        oids = [RA.OID(r) for r in w["roots"]]
+        agens.append(client.bulkwalk(oids, bulk_size=w["size"]) if w["kind"] == "bulk" else client.multiwalk(oids, errors="warn" if w["lenient"] else "strict"))
+    events = [[] for _ in walks]
+    outcomes = [None] * len(walks)
+    seen = 0
+
+    def sync(i):
+        nonlocal seen
+        for entry in agent.log[seen:]:
+            if W.is_request(entry) and "varbinds" in entry:
+                events[i].append(["req", [list(o) for o, _ in entry["varbinds"]]])
+        seen = len(agent.log)
+
+    async def go():
+        k = 0
+        while any(o is None for o in outcomes):
+            i = schedule[k % len(schedule)] if k < 50 * len(schedule) else 0
+            k += 1
+            if outcomes[i] is not None:
+                i = next(j for j, o in enumerate(outcomes) if o is None)
+            try:
+                vb = await agens[i].__anext__()
+                sync(i)
+                events[i].append(["yield", [list(vb.oid.nodes), RA.canon_value(vb.value)]])
+            except StopAsyncIteration:
+                sync(i)
+                outcomes[i] = ["done"]
+            except Exception as exc:  # noqa: BLE001 - every exception is an observable outcome
+                sync(i)
+                outcomes[i] = ["error", RA.canon_exc(exc)]
+
+    W.run(go())
+    for i, w in enumerate(walks):
+        got = {"events": events[i], "outcome": outcomes[i]}
+        if got != alone[i]:
+            return f"walk {i} ({w}) alone: {alone[i]['outcome']} after {len(alone[i]['events'])} events; interleaved: {outcomes[i]} after {len(events[i])} events"
+    return None
 
 
 def _table_run(root, univ, table, bulk):
@@ -229,7 +316,11 @@ def search(ctx, res):
 def replay(ctx, payload):
     c = payload["case"]
     univ = [tuple(u) for u in c["universe"]]
-    walk, agent = W.impl_walk({"table": c["table"]}, c["roots"], c["kind"], size=c["size"], lenient=c["lenient"], budget=len(univ) + 3)
+    if "walks" in c:
+        bad = _interleaved(c["table"], univ, c["walks"], c["schedule"])
+        print("oracle:", bad or "ok")
+        return 1 if bad else 0
+    walk, agent = W.impl_walk({"table": c["table"]}, c["roots"], c["kind"], size=c["size"], lenient=c["lenient"], budget=len(univ) + 3, version=c.get("version", "v2c"))
     bad = oracle(univ, walk, agent, c["lenient"], c["kind"], c["size"], len(c["roots"]))
     print("trace", walk)
     print("oracle:", bad or "ok")
